@@ -258,7 +258,7 @@ func (cs *autoGrowingCallFrameStack) IsEmpty() bool {
 
 // IsFull returns true if the stack cannot receive any more stack pushes without overflowing
 func (cs *autoGrowingCallFrameStack) IsFull() bool {
-	return int(cs.segIdx) == len(cs.segments) && cs.segSp >= FramesPerSegment
+	return int(cs.segIdx) == len(cs.segments)-1 && cs.segSp >= FramesPerSegment
 }
 
 func (cs *autoGrowingCallFrameStack) Clear() {
@@ -307,6 +307,12 @@ func (cs *autoGrowingCallFrameStack) Sp() int {
 func (cs *autoGrowingCallFrameStack) SetSp(sp int) {
 	desiredSegIdx := segIdx(sp / FramesPerSegment)
 	desiredFramesInLastSeg := uint8(sp % FramesPerSegment)
+	if desiredSegIdx > cs.segIdx {
+		// sp is the end of the (full) last allocated segment: there is no
+		// segment desiredSegIdx yet, so keep the "last segment full" form
+		desiredSegIdx = cs.segIdx
+		desiredFramesInLastSeg = FramesPerSegment
+	}
 	for {
 		if cs.segIdx <= desiredSegIdx {
 			break
